@@ -103,7 +103,7 @@ _INDEX: dict[tuple[str, int], list[dict]] | None = None
 
 def load(repo: Repo) -> CallGraph:
     digest = repo.digest()
-    cache_dir = os.path.join(VERIF, ".cache")
+    cache_dir = os.environ.get("TLSA_CACHE_DIR") or os.path.join(VERIF, ".cache")
     os.makedirs(cache_dir, exist_ok=True)
     path = os.path.join(cache_dir, f"cg-{digest[:32]}.pkl")
     if not os.path.exists(path):
